@@ -4,6 +4,7 @@ import (
 	"go/constant"
 	"go/token"
 	"go/types"
+	"regexp"
 	"strings"
 
 	"golang.org/x/tools/go/ssa"
@@ -149,6 +150,7 @@ func c03(c *Ctx) {
 	defer c03pairedListsAgree(c)
 	defer c03remoteAndLocalAddAgree(c)
 	c03flagWritesSelectFromTheIndexRead(c)
+	c03flagValueComparedWithoutCase(c)
 	P, R := c.P, c.R
 	R.Explain("R03.1", "T-SQL (engine of C08) restricted to the statements reachable from the message commands (Mailbox.Append/Copy/Move/Store/Expunge/Fetch, State.Create/Delete/Rename): valid against the schema and placeholder count = bound arguments for every batch size (both sides of the chunk limit).")
 	R.Explain("R03.2", "transaction shape: on any path of Mailbox.Copy/Move/Store/Expunge and State.Create/Delete/Rename at most one mutating commit wrapper (stateDBWrite/stateDBWriteResult) is executed, so a command answered NO/BAD is one rolled-back transaction.")
@@ -960,4 +962,24 @@ func c03flagWritesSelectFromTheIndexRead(c *Ctx) {
 		}
 	}
 	R.Min("R03.11", "per-flag writes whose ids are picked out of message-flag rows", n, 2)
+}
+
+var flagValueCmpRe = regexp.MustCompile("(?i)`?value`?\\s*(=|!=|<>|IS)\\s*\\?(\\s*COLLATE\\s+NOCASE)?")
+
+// c03flagValueComparedWithoutCase (R03.12): the index compares a flag given by a command without regard to letter case.
+func c03flagValueComparedWithoutCase(c *Ctx) {
+	R := c.R
+	R.Explain("R03.12", "flags are case-insensitive in the index too: the flag table keeps the spelling a flag was first stored with, so every run-time statement that compares the column message_flags.value with one bound parameter (`value` = ?) must do so with COLLATE NOCASE.  STORE -FLAGS (FOO) selects the messages whose flag set contains foo (case-insensitively, R03.4) and then deletes the row whose value equals the spelling of the request; compared byte-wise the row `Foo` stays, the session that issued the command is told the flag is gone, and every other session and the next SELECT still see it.")
+	res := c.sqlAnalysis()
+	n := 0
+	for _, st := range res.stmts {
+		if st.fn == nil || st.mig || !strings.Contains(st.text, "message_flags") {
+			continue
+		}
+		for _, m := range flagValueCmpRe.FindAllStringSubmatch(st.text, -1) {
+			n++
+			R.Check(m[2] != "", "R03.12", c.name(topFn(st.fn))+"|flag value compared with COLLATE NOCASE", st.pos, "value = ? COLLATE NOCASE", "the statement compares the stored spelling of a flag byte-wise with the spelling of the request ("+st.text+"): a flag written in another letter case is not matched, so the index keeps a flag the command removed")
+		}
+	}
+	R.Min("R03.12", "comparisons of message_flags.value with a bound parameter", n, 1)
 }
